@@ -289,6 +289,8 @@ func init() {
 			{Name: "fieldlens", TShards: 2, Run: lengthUnit("fasta")},
 			{Name: "parallel", Race: true, Run: codecParallel("fasta")},
 			{Name: "histories", Run: codecHistories("fasta")},
+			{Name: "readerzoo", TShards: 4, Run: zooUnit("fasta")},
+			{Name: "gigantic", Run: c01Gigantic},
 			firstCallUnit(firstCodec("fasta")),
 		},
 	})
@@ -451,5 +453,33 @@ func c01Sizes(c *Ctx) {
 				idx++
 			}
 		}
+	}
+}
+
+// c01Gigantic: one sequence of more than 2^26 (thorough: 2^27) bases — a small
+// chromosome — written, and read back from the written text and from a single
+// unwrapped line. "Every sequence length" has no ceiling a caller was told of.
+func c01Gigantic(c *Ctx) {
+	lens := []int{1<<26 + 10}
+	if c.Thorough {
+		lens = append(lens, 1<<27+3)
+	}
+	for i, l := range lens {
+		c.Case(int64(i), func(k *K) {
+			r := k.Rand()
+			seq := bytes.Repeat(randSeq(r, []byte("ACGTN"), 1<<16+1), l/(1<<16+1)+1)[:l]
+			recs := []*fasta.Fasta{{Name: []byte("chrG a gigantic sequence"), Sequence: seq}}
+			k.Input("sequence_length", l)
+			text := fastaWrite(k, recs)
+			fastaDecodeFrom(k, "written text", recs, bytes.NewReader(text))
+			if k.Failed() {
+				return
+			}
+			one := append(append([]byte(">chrG a gigantic sequence\n"), seq...), '\n')
+			fastaDecodeFrom(k, "one unwrapped line", recs, bytes.NewReader(one))
+			k.Count("gigantic_sequences", 1)
+			k.Evals(2)
+			k.Nontrivial([]byte(fmt.Sprint("gigantic", l)))
+		})
 	}
 }
